@@ -101,6 +101,11 @@ func handleJcc(params x86genParams, ctx *CodeGenContext) ([]byte, error) {
 		relativeOffset := destAddr - currentAddr // ジャンプ先までの相対距離
 		// rel8 のディスプレースメントは命令の終端 (先頭+2) からの距離なので、その値が int8 に収まるかで判定する
 		offsetSize := getOffsetSize(relativeOffset - 2)
+		if ctx.BitMode == cpu.MODE_32BIT {
+			// 32ビットモードでは E9 のディスプレースメントは 4 バイト (E9 cw という形式は存在しない)。
+			// pass1 も常に 5 バイトで見積もるので、ここでも rel32 形式に統一する。
+			offsetSize = 4
+		}
 
 		switch offsetSize {
 		case 1:
@@ -114,17 +119,19 @@ func handleJcc(params x86genParams, ctx *CodeGenContext) ([]byte, error) {
 			machineCode = []byte{0xe9, byte(relativeOffset - 3), byte((relativeOffset - 3) >> 8)}
 			// 66h プレフィックスは不要なため、ifブロックを削除
 		default: // rel32
-			// rel32: Opcode(1) + Offset(4) = 5 bytes
+			// JMP rel32 は 32bitモードでは E9 cd (5バイト)、16bitモードでは 66 E9 cd (6バイト)。
+			// ディスプレースメントは命令の終端からの距離なので、プレフィックスの 1 バイトも命令長に含める。
+			instLen := int64(5)
+			if ctx.BitMode == cpu.MODE_16BIT {
+				instLen = 6
+			}
 			machineCode = []byte{
 				0xe9,
-				byte(relativeOffset - 5),
-				byte((relativeOffset - 5) >> 8),
-				byte((relativeOffset - 5) >> 16),
-				byte((relativeOffset - 5) >> 24),
+				byte(relativeOffset - instLen),
+				byte((relativeOffset - instLen) >> 8),
+				byte((relativeOffset - instLen) >> 16),
+				byte((relativeOffset - instLen) >> 24),
 			}
-			// TODO: 32bitモードの場合、オペランドサイズプレフィックス(66h)が不要か確認
-			// JMP rel32 は 32bitモードでは E9 cd (5バイト)
-			// 16bitモードでは 66 E9 cd (6バイト)
 			if ctx.BitMode == cpu.MODE_16BIT {
 				machineCode = append([]byte{0x66}, machineCode...)
 			}
@@ -196,7 +203,12 @@ func handleJcc(params x86genParams, ctx *CodeGenContext) ([]byte, error) {
 
 	relativeOffset := destAddr - currentAddr // ジャンプ先までの相対距離を先に計算
 	// rel8 のディスプレースメントは命令の終端 (先頭+2) からの距離なので、その値が int8 に収まるかで判定する
-	switch getOffsetSize(relativeOffset - 2) {
+	jccOffsetSize := getOffsetSize(relativeOffset - 2)
+	if ctx.BitMode == cpu.MODE_32BIT {
+		// 32ビットモードでは 0F 8x のディスプレースメントは 4 バイト。pass1 も常に 6 バイトで見積もる。
+		jccOffsetSize = 4
+	}
+	switch jccOffsetSize {
 	case 1: // rel8
 		// rel8: Opcode (1) + Offset (1) = 2 bytes
 		// オフセットはジャンプ命令の *次の* 命令のアドレスからの相対距離
@@ -207,7 +219,12 @@ func handleJcc(params x86genParams, ctx *CodeGenContext) ([]byte, error) {
 		offset := relativeOffset - 4 // 命令サイズ(4)を引く
 		machineCode = []byte{0x0f, opcode + 0x10, byte(offset), byte(offset >> 8)}
 	default: // rel32
-		offset := destAddr - currentAddr - 6 // rel32: Opcode (2) + Offset (4) = 6 bytes
+		// rel32: Opcode (2) + Offset (4) = 6 bytes; 16ビットモードでは 66h プレフィックスが必要で 7 バイト
+		instLen := int64(6)
+		if ctx.BitMode == cpu.MODE_16BIT {
+			instLen = 7
+		}
+		offset := destAddr - currentAddr - instLen
 		machineCode = []byte{
 			0x0f,
 			opcode + 0x10, // Jcc rel32 opcode (e.g., 0x87 for JA)
@@ -215,6 +232,9 @@ func handleJcc(params x86genParams, ctx *CodeGenContext) ([]byte, error) {
 			byte(offset >> 8),
 			byte(offset >> 16),
 			byte(offset >> 24),
+		}
+		if ctx.BitMode == cpu.MODE_16BIT {
+			machineCode = append([]byte{0x66}, machineCode...)
 		}
 	}
 
